@@ -19,6 +19,8 @@ type CtxScenario struct {
 	Kind    string  `json:"kind"`                // combine | conflated | chain
 	N       int     `json:"n"`                   // others (combine) / inputs (conflated); chain: fixed 2 contexts
 	Pre     []int   `json:"pre"`                 // inputs cancelled before construction
+	Bg      []int   `json:"bg,omitempty"`        // inputs that can never be cancelled (values on context.Background())
+	PreDL   bool    `json:"predl,omitempty"`     // the inputs of Pre are done by an expired deadline instead of a cancel
 	Nils    []int   `json:"nils"`                // combine: others that are nil
 	Steps   [][]int `json:"steps"`               // each step cancels these inputs at once (through one common parent); -1 = the returned cancel func
 	Race    bool    `json:"race,omitempty"`      // the first two steps (or construction and the first step) run concurrently
@@ -142,6 +144,22 @@ func genCtxScenario(rng *rand.Rand, profile, mode string) any {
 		pos := rng.Intn(len(sc.Steps) + 1)
 		sc.Steps = append(sc.Steps[:pos], append([][]int{{-1}}, sc.Steps[pos:]...)...)
 	}
+	// inputs nobody cancels may be contexts that nobody CAN cancel; pre-cancelled ones may have expired instead
+	used := map[int]bool{}
+	for _, i := range sc.Pre {
+		used[i] = true
+	}
+	for _, st := range sc.Steps {
+		for _, i := range st {
+			used[i] = true
+		}
+	}
+	for _, i := range ids {
+		if !used[i] && i >= 1 && rng.Intn(100) < 40 {
+			sc.Bg = append(sc.Bg, i)
+		}
+	}
+	sc.PreDL = rng.Intn(2) == 0
 	if sc.Pre == nil {
 		sc.Pre = []int{}
 	}
@@ -183,6 +201,18 @@ func runCtxExec(execID int, sci any, e *Env) []rec.Ev {
 			base = parents[s]
 		}
 		ctx, c := context.WithCancel(base)
+		for _, b := range sc.Bg {
+			if b == i {
+				ctx, c = context.Background(), func() {}
+			}
+		}
+		if sc.PreDL {
+			for _, pi := range sc.Pre {
+				if pi == i {
+					ctx, c = context.WithDeadline(base, time.Now().Add(-time.Hour)) // done already: Err() is DeadlineExceeded
+				}
+			}
+		}
 		if i == lo {
 			ctx = context.WithValue(ctx, keyT("first"), "v1")
 		} else {
@@ -250,6 +280,12 @@ func runCtxExec(execID int, sci any, e *Env) []rec.Ev {
 			result, resCancel = bigbuff.ConflatedContext(ins...)
 		case "chain":
 			bigbuff.ChainAfterFunc(inputs[0], inputs[1], func() { calls.Add(1) })
+		}
+		// what the result looks like the moment the constructor returns (inputs cancelled beforehand are listed)
+		if result != nil {
+			pre := append([]int{}, sc.Pre...)
+			sort.Ints(pre)
+			e.R.Add(rec.Ev{"ev": "built", "kind": sc.Kind, "n": sc.N, "pre": pre, "nils": sc.Nils, "race": sc.Race, "res0": result.Err() != nil})
 		}
 	}
 	var mu sync.Mutex
